@@ -71,3 +71,27 @@ def history(rng, case, idx):
 def recipe(rng, case, idx):
     from pv.recipes import run_recipe_case
     run_recipe_case(rng, case, idx, focus='remove')
+
+
+# --------------------------------------------------------------------------------------------------
+# directed edge workloads shared between several checks (pv/edges.py)
+
+_plan_without_edges, _run_job_without_edges = plan, run_job
+_required_without_edges = globals().get('required_buckets')
+
+
+def required_buckets(tier):
+    return (list(_required_without_edges(tier)) if _required_without_edges else []) + [ID + '/edge/']
+
+
+def plan(tier, seed):
+    from .common import edges_jobs
+    return _plan_without_edges(tier, seed) + edges_jobs(tier)
+
+
+def run_job(job):
+    if job['kind'] == 'edges':
+        from pv.edges import edges
+        from .common import run_cases
+        return run_cases(job, edges)
+    return _run_job_without_edges(job)
